@@ -7,6 +7,11 @@ BASELINE = ("cd /repo && (cargo nextest run --workspace --no-fail-fast --tool-co
 
 # id -> (level, technique, level text, note, design ref)
 CHECKS = {
+ "C16": ("exploration",
+         "property-based testing with renderer ground truth: documents rendered by the harness with recorded line / column / char / byte positions of every node; a generic Spanned tree and provoked type errors are compared with them; a consistency predicate re-derives every reported Location from the text",
+         "Random decorated documents (all scalar styles, multi-byte text, anchors / aliases to scalars and containers, block and flow) under layouts with a multi-byte first line, LF / CRLF / lone CR, comments, markers and indentation 2-4: both locations of every node of a generic Spanned<tree> are internally consistent and name the renderer's position (alias use site / anchored definition site), single-line scalar byte ranges equal the written token, a non-integer planted at every scalar leaf of an all-integer typed tree is reported at that leaf (or as the definition site under an alias); 3 fixed documents x every leaf x 586 layouts exhaustively; fixed merge documents for merge use / definition sites. Exploration.",
+         "below mapping keys and inside replayed content only the definition site of plain nodes is judged (the property speaks of values reached through an alias); block scalars only for consistency; one open finding in the parser dependency (span of a quoted scalar includes trailing blanks / comment) excludes quoted scalars under comment layouts",
+         "DESIGN.md section 3 C16"),
  "C14": ("exploration",
          "model-based property testing over generated object-graph descriptions (exhaustive small DAG shapes + proptest graphs); oracle = pointer-equality partition before vs after the round trip, predicted anchor / alias token sequence, tree expansion for plain mirror types",
          "All strong DAG shapes with <= 4 allocations x 4 variants, all weak-edge subsets for <= 2 allocations, every single weak edge for 3, random graphs with <= 10 allocations and <= 25 occurrences over Rc and Arc anchors with shared string leaves, weak edges to live and dropped targets and recursive links (self loop, parent pointer, rings), in sequence / map / nested-struct / Option positions under several serializer option vectors: the partition of wrapper occurrences by pointer equality, payloads, weak upgrade / dangling, link walks and re-serialised text are preserved; each shared class is defined once and aliased elsewhere; plain and mixed mirror types get equal independent copies. Exploration.",
